@@ -79,7 +79,7 @@ cov = {
     "op_rel_outcome": merge_counts("op_rel_outcome"),
     "known_findings_seen": sorted({k for p in parts for k in p.get("known_findings_seen", [])}),
     "components": COMPONENTS,
-    "legs": [{k: p.get(k) for k in ("engine", "profile", "features", "evaluations", "distinct_nontrivial", "wall_s", "violations", "configurations", "note") if k in p} for p in parts],
+    "legs": [{k: p.get(k) for k in ("engine", "profile", "features", "evaluations", "digests_compared", "distinct_nontrivial", "wall_s", "violations", "configurations", "note") if k in p} for p in parts],
 }
 ev = {
     "property_id": ID,
